@@ -425,7 +425,8 @@ func interfaceValueAsSqlString(ctx *sql.Context, ti typeinfo.TypeInfo, value int
 		}
 		return quoteAndEscapeString(s), nil
 	case querypb.Type_GEOMETRY:
-		return singleQuote + str + singleQuote, nil
+		// |str| holds the serialized bytes of the value, which may contain quotes and backslashes
+		return hexEncodeBytes([]byte(str)), nil
 	default:
 		return str, nil
 	}
